@@ -1,0 +1,87 @@
+//go:build verif
+
+// Contracts for package ssh/client (comment-only; read by /verif/govc).
+
+package client
+
+// ---- host key trust (C17) -------------------------------------------------------------------------
+//@ type KnownHostsCallback invariant [made] self.unknownCh != nil && self.trustAllHostsCh != nil && self.untrustedHosts != nil && self.mutex != nil
+
+// The answer channel of an unknown host carries one of the two answers and is
+// never closed (a closed channel would read as trustHost, the zero value).
+// Nothing is ever sent on trustAllHostsCh: it is closed, or it is not.
+//@ type KnownHostsCallback chaninv trustAllHostsCh [nothing-is-ever-sent] false
+// Unknown hosts travel from the SSH callback to the prompting goroutine with
+// the address the library reported.
+//@ type KnownHostsCallback chaninv unknownCh [has-address] open: !isnil(elem.remote)
+//@ type unknownHost chaninv responseCh [an-answer] open: elem == trustHost || elem == dontTrustHost
+
+// With trust-all the channel is closed from the start (a closed channel is how
+// "trust every host" is remembered).
+//@ func NewKnownHostsCallback
+//@   assigns fs
+//@   at-call builtin:close [trust-all-only-on-request] trustAllHosts
+//@   ensures [made] isnil(result1) && !isnil(result0)
+
+// The callback handed to the SSH library. known: what the known-hosts check of
+// golang.org/x/crypto/ssh/knownhosts said (nil = the key matches an entry).
+// The connection may proceed (nil) only on a match or after the prompting
+// side answered trustHost for this very host; a refusal is recorded and the
+// known-hosts error returned.
+//@ func (KnownHostsCallback).Wrap$1
+//@   requires [remote] !isnil(remote)
+//@   bind known == dynamic:ssh.HostKeyCallback
+//@   chaninv unknown.responseCh [an-answer] open: elem == trustHost || elem == dontTrustHost
+//@   on-recv unknown.responseCh effect g_response == elem
+//@   ghost-init g_response == -1
+//@   ensures [proceeds-only-if-trusted] implies(isnil(result), isnil(known) || g_response == trustHost)
+//@   ensures [refusal-is-an-error] implies(!isnil(known) && g_response != trustHost, !isnil(result))
+//@   ensures [refusal-recorded] implies(g_response == dontTrustHost, has(c.untrustedHosts, server))
+//@ func (KnownHostsCallback).Wrap$1$1
+//@   inline
+
+// Who may answer "trust": trustHosts runs only for trust-all, or from the
+// callbacks registered under the answers yes / all; "no" refuses; "details"
+// only prints and asks again.
+//@ func (KnownHostsCallback).PromptAddHosts
+//@   loop 1 invariant [have-addresses] forall(i, 0, len(hosts), !isnil(hosts[i].remote))
+//@ func (KnownHostsCallback).promptAddHosts
+//@   requires [have-addresses] forall(i, 0, len(hosts), !isnil(hosts[i].remote))
+//@   at-call trustHosts [only-with-trust-all] c.trustAllHostsCh.closed
+//@   at-call ).Add [answers-wired] (arg1.Long == "yes" && arg1.Short == "y" && !arg1.AskAgain && funcIs(arg1.Callback, "promptAddHosts$1")) || (arg1.Long == "all" && arg1.Short == "a" && !arg1.AskAgain && funcIs(arg1.Callback, "promptAddHosts$3")) || (arg1.Long == "no" && arg1.Short == "n" && !arg1.AskAgain && funcIs(arg1.Callback, "promptAddHosts$5")) || (arg1.Long == "details" && arg1.Short == "d" && arg1.AskAgain && funcIs(arg1.Callback, "promptAddHosts$7"))
+//@ func (KnownHostsCallback).promptAddHosts$1
+//@   requires [have-addresses] forall(i, 0, len(hosts), !isnil(hosts[i].remote))
+//@   calls-only (KnownHostsCallback).trustHosts
+//@ func (KnownHostsCallback).promptAddHosts$3
+//@   requires [have-addresses] forall(i, 0, len(hosts), !isnil(hosts[i].remote))
+//@   calls-only (KnownHostsCallback).trustHosts
+//@ func (KnownHostsCallback).promptAddHosts$5
+//@   calls-only (KnownHostsCallback).dontTrustHosts
+//@ func (KnownHostsCallback).promptAddHosts$7
+//@   calls-only fmt.Println
+
+// Every host of a refused batch is answered dontTrustHost, nothing else happens.
+//@ func (KnownHostsCallback).dontTrustHosts
+//@   callers-only (KnownHostsCallback).promptAddHosts$5
+//@   assigns nothing
+//@   at-send unknown.responseCh [refused] elem == dontTrustHost
+
+// Recording newly trusted hosts. tmp = <known_hosts>.tmp is written from
+// scratch: two lines per new host, then every line of the old file whose
+// address (its first field) is not among the new hosts' addresses, verbatim;
+// tmp replaces the old file only after the old file was read to its end
+// without error.
+//@ define firstField(ln) == ite(contains(ln, " "), substr(ln, 0, indexOf(ln, " ")), ln)
+//@ func (KnownHostsCallback).trustHosts
+//@   callers-only (KnownHostsCallback).promptAddHosts, (KnownHostsCallback).promptAddHosts$1, (KnownHostsCallback).promptAddHosts$3
+//@   requires [have-addresses] forall(i, 0, len(hosts), !isnil(hosts[i].remote))
+//@   assigns fs
+//@   at-send unknown.responseCh [trusted] elem == trustHost
+//@   loop 1 invariant [tmp-unpublished] !fsSealed(c.knownHostsPath + ".tmp")
+//@   loop 2 invariant [reads-the-old-file] scanner.path == c.knownHostsPath
+//@   loop 2 invariant [tmp-unpublished] !fsSealed(c.knownHostsPath + ".tmp")
+//@   loop 1 step [two-lines-per-new-host] fsData(c.knownHostsPath + ".tmp") == prev(fsData(c.knownHostsPath + ".tmp")) + hosts[rangeindex].hostLine + "\n" + hosts[rangeindex].ipLine + "\n"
+//@   loop 2 step [old-line-kept-unless-replaced] fsData(c.knownHostsPath + ".tmp") == prev(fsData(c.knownHostsPath + ".tmp")) + ite(has(addresses, firstField(line)), "", line + "\n")
+//@   loop 2 step [old-file-untouched] fsData(c.knownHostsPath) == prev(fsData(c.knownHostsPath))
+//@   at-call os.Rename [tmp-replaces-known-hosts] arg0 == c.knownHostsPath + ".tmp" && arg1 == c.knownHostsPath
+//@   at-call os.Rename [old-entries-all-read] !scanner.failed && fsData(c.knownHostsPath) == scanner.consumed
